@@ -106,8 +106,10 @@ def assumed_facts(vname, terms, view=None):
                             fargs.append(fa[k])
                 ops.append([('arg', a) for a in sorted(set(fargs))])
             elif x == '<float-cells>':
+                # (a tuple- or struct-typed cell is presented by the value graph as the cells `f.0`, `f.1` / `f.name`)
                 ops.append([st for st in subs if st[0] == 'in' and view is not None and any(
-                    f.name == st[1] and f.role == 'cell' and not str(f.ty_str).startswith(('usize', 'bool', 'u', 'i')) for f in view.fields)])
+                    (f.name == st[1] or (st[1].startswith(f.name + '.') and not any(w in str(f.ty_str) for w in ('usize', 'bool', 'u64', 'u32', 'i64', 'i32'))))
+                    and f.role == 'cell' and not str(f.ty_str).startswith(('usize', 'bool', 'u', 'i')) for f in view.fields)])
             else:
                 ops.append([])
         for l in ops[0]:
